@@ -1,6 +1,7 @@
-(* C10 -- parsing delivers exactly what was written, regardless of layout.  (partial: see the end of the file) *)
+(* C10 -- parsing delivers exactly what was written, regardless of layout.  (partial only in what is stated at the end) *)
 From Coq Require Import NArith ZArith List Bool String.
-From MP Require Import Model.Lexer Gen.GenLex Gen.GenGrammar Model.Parser Proofs.LexProofs Proofs.ParserProofs.
+From MP Require Import Model.Lexer Gen.GenLex Gen.GenGrammar Model.Parser Model.Serial Proofs.LexProofs Proofs.ParserProofs
+  Proofs.LrComplete Proofs.LexSerial Proofs.Layout Proofs.Surface Proofs.SurfaceLayout.
 Import ListNotations.
 
 (* tie 1: the token rules of the live lexer, in PLY's effective order, with the regexes the scanners of Model/Lexer.v were
@@ -46,14 +47,71 @@ Example C10_example :
   end.
 Proof. vm_compute. split; reflexivity. Qed.
 
-(* NOT proved (the round-trip / layout-irrelevance half of the property): that every rendering of every abstract program
-   parses back to that program.  It needs the completeness of the LALR automaton for the grammar (one induction per
-   recursive nonterminal over facts computed from the tables) and boundary lemmas for the lexer; here it is covered by the
-   correspondence only: random programs x random layouts, single-token corruptions, token soups, unquoted multi-word text,
-   all compared with the real parser's result including line numbers.  Recorded limitation of the code itself (modelled
-   faithfully): an unquoted multi-word value loses its blanks and re-prints numerals ("This is a string." -> "Thisisastring."). *)
+(* ---------------- the round trip and layout irrelevance ---------------- *)
+(* A SURFACE PROGRAM (Proofs/Surface.v) is what is written, token by token: result and command names, argument names, values
+   that are quoted strings (either quote character, any escapes: given by their lexeme), integers and decimals in any
+   spelling the token rules accept, unquoted identifiers, lists at any nesting with or without a trailing comma,
+   dictionaries of "key": value pairs, argument lists with or without a trailing comma.  Its DENOTATION (xden / xaexp) is
+   what it means: decoded strings, integer values, lists, dictionaries -- no layout, no quote style, no commas.
+
+   LAYOUT IRRELEVANCE (C10_layout_irrelevance): put ANY gaps -- blanks, tabs, line breaks of any kind (LF, CR, CRLF), blank
+   lines, comments -- before, between and after the tokens of ANY lexically well-formed surface program (where a gap is
+   empty the two tokens must not run together: lay_ok); the text parses to a version-3 program with the same commands in
+   order, the same names and, for every argument, the denotation of what was written.  Every hypothesis is a computable
+   boolean (surface_okb).  Proved through: gaps are skipped by the master regex (Proofs/Layout.v); every token is taken
+   whole when followed by a gap or by a token it cannot run into (per-rule lemmas, Proofs/LexSerial.v, SurfaceLayout.v);
+   the LALR automaton of the regenerated tables accepts the token stream and the semantic actions compute the denotation
+   (simulation lemmas per syntactic category, Proofs/Surface.v). *)
+Theorem C10_layout_irrelevance : forall fs p gaps final, p <> [] -> surface_okb p gaps final = true ->
+  exists pp, parse fs (lay (combine gaps (tkx_program p)) final) = POk pp /\ pp_version pp = 3%N /\ Forall2 xcmd_matches p (pp_cmds pp).
+Proof. exact surface_layout_b. Qed.
+(* hence two renderings with the same denotation -- differing in gaps, quote characters, escapes, spelling of numerals,
+   trailing commas -- parse to the same program, line numbers apart *)
+Theorem C10_same_denotation : forall fs p1 p2 g1 g2 f1 f2,
+  p1 <> [] -> surface_okb p1 g1 f1 = true -> p2 <> [] -> surface_okb p2 g2 f2 = true -> map xcmd_den p1 = map xcmd_den p2 ->
+  exists pp1 pp2, parse fs (lay (combine g1 (tkx_program p1)) f1) = POk pp1 /\ parse fs (lay (combine g2 (tkx_program p2)) f2) = POk pp2 /\
+                  map erase_cmd (pp_cmds pp1) = map erase_cmd (pp_cmds pp2) /\ pp_version pp1 = pp_version pp2.
+Proof. intros fs p1 p2 g1 g2 f1 f2 A1 A2 B1 B2 Hd.
+  destruct (surface_layout_b fs p1 g1 f1 A1 A2) as (pp1 & E1 & V1 & M1). destruct (surface_layout_b fs p2 g2 f2 B1 B2) as (pp2 & E2 & V2 & M2).
+  exists pp1, pp2. repeat split; [exact E1 | exact E2 | | congruence]. rewrite (matches_dens _ _ M1), (matches_dens _ _ M2). exact Hd. Qed.
+(* the layout the serialiser writes is one of them, for every program (C15), and so is every re-layout of it *)
+Theorem C10_layout_of_serialised_programs : forall fs p gaps final, p <> [] -> forallb wfc p = true -> List.length gaps = List.length (tk_program p) ->
+  Forall isgap gaps -> lexes final [] -> lay_ok (combine gaps (tk_program p)) final ->
+  exists pp, parse fs (lay (combine gaps (tk_program p)) final) = POk pp /\ pp_version pp = 3%N /\ Forall2 cmd_matches p (pp_cmds pp).
+Proof. exact layout_irrelevant. Qed.
+
+(* non-vacuity: single quotes, a hex escape in a key, +1, trailing commas everywhere, a comment before a CRLF, a final
+   comment without line break:   A = Cmd( P = [+1, 'x y', [2.5,], ],  # note<CR><LF>  Q = ["k\x41": v,], )<LF># end   *)
+Definition ex_surface : list xcmd :=
+  [ {| xc_result := rx "A"; xc_name := rx "Cmd"; xc_trail := true;
+       xc_args := [ (rx "P", XAVal (XList [XLeaf (XI (rx "+1")); XLeaf (XS (rx "'x y'")); XList [XLeaf (XF (rx "2.5"))] true] true));
+                    (rx "Q", XADict (rx """k\x41""", XW (rx "v")) [] true) ] |} ].
+Definition ex_gaps : list text :=
+  let sp := [32%N] in
+  [ []; sp; sp; []; sp; sp; sp; []; []; sp; []; sp; []; []; []; []; sp; [];
+    [32; 32; 35; 32; 110; 111; 116; 101; 13; 10; 32; 32]%N; sp; sp; []; []; sp; []; []; []; sp ].
+Definition ex_final : text := [10; 35; 32; 101; 110; 100]%N.
+Example C10_layout_example : ex_surface <> [] /\ surface_okb ex_surface ex_gaps ex_final = true /\
+  match parse (fun _ => None) (lay (combine ex_gaps (tkx_program ex_surface)) ex_final) with
+  | POk {| pp_cmds := [ {| pc_args := [a1; a2] |} ] |} =>
+      erase_e (pa_value a1) = PE (PList [PE (PInt 1%Z) 0%N; PE (PStr (rx "x y")) 0%N; PE (PList [PE (PFloat (rx "2.5")) 0%N]) 0%N]) 0%N /\
+      erase_e (pa_value a2) = PE (PDict [(rx "kA", PE (PStr (rx "v")) 0%N)]) 0%N
+  | _ => False end.
+Proof. split; [discriminate|]. split; vm_compute; [reflexivity | split; reflexivity]. Qed.
+
+(* NOT proved: the same for the forms outside the surface family -- unquoted multi-word text and text with colons
+   (plain_string / permissive_plain_string productions, PLAIN_STRING tokens), the EEMS 2.0 command form, dictionaries with
+   unquoted keys or list values.  These are covered by the correspondence only: random programs x random layouts,
+   single-token corruptions, token soups, unquoted multi-word text, all compared with the real parser's result including
+   line numbers; the evidence counts how many of the generated renderings are instances of C10_layout_irrelevance (Coq
+   re-assembles each text from its decomposition and evaluates surface_okb).  Recorded limitation of the code itself
+   (modelled faithfully): an unquoted multi-word value loses its blanks and re-prints numerals ("This is a string." ->
+   "Thisisastring."). *)
 Print Assumptions C10_lexer_rules.
 Print Assumptions C10_grammar.
 Print Assumptions C10_tokens_are_pieces_of_the_source.
 Print Assumptions C10_parse_tree_yields_the_tokens.
 Print Assumptions C10_outcomes.
+Print Assumptions C10_layout_irrelevance.
+Print Assumptions C10_same_denotation.
+Print Assumptions C10_layout_of_serialised_programs.
